@@ -265,7 +265,8 @@ def make_blocks(spec):
             # addition: the first block real, later ones drawn
             dtype = ("float64", "float32")[int(rng.integers(0, 2))] \
                 if nblk == 0 else ("float64", "complex128", "float32",
-                                   "complex128")[int(rng.integers(0, 4))]
+                                   "complex128", "complex64")[
+                    int(rng.integers(0, 5))]
         if kind == "int":
             b = rng.integers(-4, 5, size=shape).astype("float64")
             if "complex" in dtype:
@@ -289,6 +290,8 @@ def make_blocks(spec):
             # exactly rank-deficient matrix blocks: integer outer products
             m, n = shape
             r = max(1, min(m, n) - 1)
+            if max(m, n) >= 9:
+                r = min(r, 2)
             b = np.zeros(shape)
             for _ in range(r):
                 b = b + np.outer(rng.integers(-3, 4, size=m),
@@ -477,7 +480,7 @@ def aligned_pairs(pair):
 @st.composite
 def matrix_specs(draw, ferm=None, syms=SYMS4, data=None, square=False,
                  hermitian=False, max_size=4, lazy=True, dtype=None,
-                 allow_missing=True):
+                 allow_missing=True, elongated=True):
     """Spec of a symmetric matrix (two legs).
 
     square=True: every block is square and all blocks are present (column
@@ -512,6 +515,18 @@ def matrix_specs(draw, ferm=None, syms=SYMS4, data=None, square=False,
     else:
         ix1 = draw(index_specs(symm, max_charges=3, max_size=max_size,
                                min_charges=draw(st.sampled_from([1, 2, 2, 3]))))
+        if elongated and draw(st.integers(0, 5)) == 0:
+            # strongly elongated blocks (one side > 4x the other, short side
+            # >= 2): long thin / short wide
+            long_ = {c: draw(st.integers(9, 14)) for c in ix0["cm"]}
+            short = {c: draw(st.integers(2, 3)) for c in ix1["cm"]}
+            if draw(st.booleans()):
+                ix0, ix1 = dict(ix0, cm=long_), dict(ix1, cm=short)
+            else:
+                ix0 = dict(ix0, cm={c: draw(st.integers(2, 3))
+                                    for c in ix0["cm"]})
+                ix1 = dict(ix1, cm={c: draw(st.integers(9, 14))
+                                    for c in ix1["cm"]})
         idxs = [ix0, ix1]
         charge = None
         kind = data or draw(st.sampled_from(["gauss", "gauss", "lowrank"]))
